@@ -215,7 +215,7 @@ class ReconWorld:
         return [x for a in self._accs() for x in a.conns if x.open]
 
     # ---- harness events
-    async def do(self, op):
+    async def do(self, op, settle=True):
         loop, p, tr = self.loop, self.p, self.tr
         name = op[0]
         t0 = loop.time()
@@ -322,6 +322,20 @@ class ReconWorld:
                 note = "dropped-old"
         elif name in ("close", "shutdown"):
             raised = None
+            if len(op) > 1 and op[1] == "racing":
+                # another user of the pairing gets going in the very loop iterations in which close()/shutdown() is suspended
+                racer = op[2] if len(op) > 2 else "call"
+                if racer == "zc":
+                    self.state_num += 1
+
+                    def late_update(n=self.state_num):
+                        try:
+                            self.p._async_description_update(description(list(self.hosts), self.port, n))
+                        except Exception as e:  # noqa: BLE001
+                            tr.problems.append(("description-update-raises", f"{type(e).__name__}: {e}", {}))
+                    loop.call_soon(late_update)
+                else:
+                    await self.do((racer, "none") if racer == "call" else (racer,), settle=False)
             try:
                 await (p.close() if name == "close" else p.shutdown())
             except asyncio.CancelledError:
@@ -331,6 +345,9 @@ class ReconWorld:
             tr.closes.append((t0, name, raised, loop.time()))
         else:
             raise AssertionError(name)
+        if not settle:
+            tr.ops.append((t0, list(op), "racing"))
+            return
         await vtime.settle(loop)
         tr.ops.append((t0, list(op), note))
         self.observe()
